@@ -137,20 +137,6 @@ def kw_of(heading):
     return "".join("_" if ch in " -" else ch for ch in heading)
 
 
-def key_set_order(rows, rkc):
-    """the iteration order of the key set keyword_search builds (same construction, same interpreter,
-    hence the same order): the model takes it as its `order` parameter"""
-    if not rows:
-        return []
-    if rkc:
-        ks = set()
-        for r in rows:
-            ks.update(r.keys())
-    else:
-        ks = set(list(rows[0].keys()))
-    return list(ks)
-
-
 def _row_ok(r, key, m, val):
     if key not in r:
         return False
@@ -169,43 +155,32 @@ def _row_ok(r, key, m, val):
 
 
 def ks_expect(rows, rkc, kwargs):
-    """keyword search stated directly (independent of the implementation's helpers).
-    Returns (acceptable, strict, clash): `acceptable` = the results for every way of resolving a keyword
-    that is the documented keyword of SEVERAL headings; `strict` = the result when every such keyword is
-    resolved to the heading that is literally the keyword (None if some clash has no such heading);
-    `clash` = some keyword names several headings."""
+    """keyword search stated directly (independent of the implementation's helpers): a keyword names the
+    heading that is literally the keyword when there is one, otherwise the greatest heading (string
+    order) among those whose documented keyword it is; no such heading -> no rows"""
     if not kwargs or not rows:
-        return [[]], [], False
+        return []
     keys = []
     for r in (rows if rkc else rows[:1]):
         for k in r:
             if k not in keys:
                 keys.append(k)
-    conds, clash = [], False
+    conds = []
     for kw, val in kwargs:
         base, sep, suf = kw.partition("__")
         dk, m = (base, suf) if (sep and suf in SUFFIXES) else (kw, "equals")
         cands = [k for k in keys if kw_of(k) == dk]
         if not cands:
-            return [[]], [], False
-        clash = clash or len(cands) > 1
-        conds.append((cands, m, val))
-    acceptable = []
-    for choice in itertools.product(*[c[0] for c in conds]):
-        acceptable.append([r for r in rows if all(_row_ok(r, k, m, v) for k, (_, m, v) in zip(choice, conds))])
-    strict_keys = []
-    for (cands, _, _), (kw, _) in zip(conds, kwargs):
-        base, sep, suf = kw.partition("__")
-        dk = base if (sep and suf in SUFFIXES) else kw
-        strict_keys.append(cands[0] if len(cands) == 1 else dk if dk in cands else None)
-    strict = None
-    if None not in strict_keys:
-        strict = [r for r in rows if all(_row_ok(r, k, m, v) for k, (_, m, v) in zip(strict_keys, conds))]
-    return acceptable, strict, clash
+            return []
+        conds.append((dk if dk in cands else max(cands), m, val))
+    return [r for r in rows if all(_row_ok(r, *c) for c in conds)]
 
 
 def direct_filter(rows, rkc, kwargs):
-    return ks_expect(rows, rkc, kwargs)[0][-1]
+    return ks_expect(rows, rkc, kwargs)
+
+
+HASHSEEDS_SEEN = {}
 
 
 class _Parent(object):
@@ -224,9 +199,6 @@ def table_rows(t):
         want = [OrderedDict(zip(t["names"], row)) for row in t["rows"]]
         got = parse_delimited_table(t["lines"], delim=t["d"])
     return got, want
-
-
-KS_FINDING = "ks-colliding-headings-hash-order"
 
 
 def ini_expect(doc):
@@ -407,7 +379,7 @@ def evaluate(c):
             try:
                 rows, rendered = table_rows(c["from"])
             except (ValueError, IndexError, ParseException) as e:
-                return "ks\t0\tL\tR\tP", err(e), [("the rendered table did not parse: %r" % e, None)]
+                return "ks\t0\tR\tP", err(e), [("the rendered table did not parse: %r" % e, None)]
             if [list(x.items()) for x in rows] != [list(x.items()) for x in rendered]:
                 fails.append(("parse(render) = %r, rendered rows are %r" % (rows, rendered), None))
         else:
@@ -415,23 +387,27 @@ def evaluate(c):
             rendered = rows
         kwsets = c["kwsets"] if "kwsets" in c else [c["kwargs"]]
         parent = _Parent() if c.get("parent") else None
-        order = key_set_order(rows, c["rkc"])
         answers = []
         for kws in kwsets:
             kwargs = OrderedDict((k, v) for k, v in kws)
             r = keyword_search(rows, parent=parent, row_keys_change=c["rkc"], **kwargs)
             answers.append(show_rows(r))
-            acceptable, strict, clash = ks_expect(rendered, c["rkc"], kws)
-            got = [list(x.items()) for x in r]
-            if got not in [[list(x.items()) for x in w] for w in acceptable] or any(not any(x is y for y in rows) for x in r):
-                fails.append(("keyword_search(%r) = %r, the rows satisfying every condition are %r" % (kws, r, acceptable[-1]), None))
-            elif strict is not None and got != [list(x.items()) for x in strict]:
-                # a keyword that is literally a heading selected on ANOTHER heading with the same keyword
-                fails.append(("keyword_search(%r) = %r: the keyword is itself a heading, conditions on that heading select %r" % (kws, r, strict),
-                              KS_FINDING if clash else None))
+            want = ks_expect(rendered, c["rkc"], kws)
+            if [list(x.items()) for x in r] != [list(x.items()) for x in want] or any(not any(x is y for y in rows) for x in r):
+                fails.append(("keyword_search(%r) = %r, the rows satisfying every condition are %r" % (kws, r, want), None))
         if len(kwsets) == 1 and not c.get("parent"):
-            return "ks\t%s\t%s\t%s\t%s" % (B(c["rkc"]), L(order), R(rows), P(kwsets[0])), answers[0], fails
-        return "ksseq\t%s\t%s\t%s\t%s" % (B(c["rkc"]), L(order), R(rows), "\t".join(P(k) for k in kwsets)), " | ".join(answers), fails
+            return "ks\t%s\t%s\t%s" % (B(c["rkc"]), R(rows), P(kwsets[0])), answers[0], fails
+        return "ksseq\t%s\t%s\t%s" % (B(c["rkc"]), R(rows), "\t".join(P(k) for k in kwsets)), " | ".join(answers), fails
+    if op == "sort":
+        return "sort\t" + L(c["keys"]), L(sorted(c["keys"])), fails
+    if op == "hashseeds":
+        # regression of fix 1e9b608: clashing headings, child interpreters under 8 string hash seeds
+        seen = clash_witness()
+        HASHSEEDS_SEEN.update(seen)
+        if set(seen.values()) != {"1"}:
+            fails.append(("keyword_search([{'a b': 'x', 'a_b': 'y'}], a_b='y') must return the row under every PYTHONHASHSEED; "
+                          "rows found per seed: %r" % seen, None))
+        return "ks\t0\tRr61.20.62:S78,61.5f.62:S79\tP61.5f.62:79", "ok r61.20.62:S78,61.5f.62:S79" if not fails else "per-seed " + json.dumps(seen, sort_keys=True), fails
     if op == "ini":
         lines = render_ini(c["doc"]) if "doc" in c else c["lines"]
         qs = [tuple(q) for q in c["qs"]]
@@ -825,9 +801,16 @@ def gen_tab_ks(rng):
             "kwsets": gen_kwsets(rng, names, data, rng.choice([2, 3]) if parent else 1)}
 
 
+def gen_sort(rng):
+    """heading sets for the order the table is built in: prefixes, case, space/dash/underscore, non-ASCII, astral"""
+    pool = SPECIAL + SPACEY + ["", "a", "A", "ab", "a ", "a_", "a-", "a~", "Z", "z", "é", "e\u0301", "\U0001f600", "\uffff", "\ud7ff",
+                              "10", "9", "a\tb", "名", "名前2"]
+    return {"op": "sort", "keys": rng.sample(pool, rng.choice([0, 1, 2, 3, 5, 8, 12]))}
+
+
 def clash_witness():
-    """known finding: with headings 'a b' and 'a_b' the keyword a_b selects on whichever comes last in the
-    hash order of the key set; child interpreters under several PYTHONHASHSEED values"""
+    """regression of fix 1e9b608: with headings 'a b' and 'a_b' the keyword a_b used to select on whichever came
+    last in the hash order of the key set; child interpreters under PYTHONHASHSEED 0..7, number of rows found"""
     code = ("import sys; sys.path.insert(0, %r); from insights.parsers import keyword_search; "
             "print(len(keyword_search([{'a b': 'x', 'a_b': 'y'}], a_b='y')))" % REPO)
     seen = {}
@@ -939,10 +922,9 @@ def run(chk):
         "the INI grammar (insights/parsr/iniparser.py, an instance of the combinator library of C19) is not proved: it is tied on rendered "
         "documents to the model's line-level reading parseIni by the 'ini' stream; the theorems about IniConfigFile are over the tree it returns",
         "str.lower is modelled on ASCII; str.isspace is a table compared with the live interpreter over all code points on every run",
-        "keyword_search: search values are strings; the iteration order of the key SET (hash order) is a parameter of the model, observed in "
-        "the interpreter by rebuilding the set the same way and checked by the driver to be a permutation of the key set; headings with the "
-        "same keyword are resolved by that order (the later heading wins) in code and model alike — see known finding "
-        "ks-colliding-headings-hash-order; the `_transform_cache` on a parent is modelled for repeated searches over the SAME rows",
+        "keyword_search: search values are strings; the transformation table is a function of the key set (sorted order, then exact "
+        "headings name themselves — Props.C15.txkeys_order_independent); Python's sorted() on str is tied to the model's code-point order "
+        "by the 'sort' stream; the `_transform_cache` on a parent is modelled for repeated searches over the SAME rows",
         "translate/matchers.py (ast -> Lean) is trusted for the shape of the five lambda bodies; Props.C15.matchers_spec pins their meaning",
     ]
     # ---- 0. matcher table from the live source
@@ -962,6 +944,7 @@ def run(chk):
     for fname, d, c in load_corpus():
         cases.append((c, d.get("finding"), fname))
     ncorpus = len(cases)
+    cases.append(({"op": "hashseeds"}, None, None))
 
     def add(gen, n, *a):
         for _ in range(n * scale):
@@ -977,6 +960,7 @@ def run(chk):
     add(gen_ks, 500)
     add(gen_ks_special, 500)
     add(gen_tab_ks, 300)
+    add(gen_sort, 200)
     add(gen_ini, 500, False)
     add(gen_ini, 300, True)
     add(gen_ini_irregular, 200)
@@ -1002,14 +986,8 @@ def run(chk):
             chk.failure(desc, c, finding=fid)
         if fname and not finding:
             chk.witnesses.append({"file": fname, "regression": True, "passes": not fails})
-    # known finding: clashing headings are resolved by hash order
-    try:
-        seen = clash_witness()
-        chk.witnesses.append({"finding": KS_FINDING, "rows_found_per_PYTHONHASHSEED": seen})
-        if len(set(seen.values())) > 1 or "0" in seen.values():
-            chk.finding_reproduced(KS_FINDING)
-    except Exception as e:
-        chk.witnesses.append({"finding": KS_FINDING, "error": str(e)})
+        if c["op"] == "hashseeds":
+            chk.witnesses.append({"regression": "fix 1e9b608, clashing headings", "rows_found_per_PYTHONHASHSEED": dict(HASHSEEDS_SEEN), "passes": not fails})
     out = run_driver("C15", lines)
     # the white-space table and the matcher names
     py_spaces = " ".join(str(i) for i in range(0x110000) if not (0xd800 <= i <= 0xdfff) and chr(i).isspace())
@@ -1029,7 +1007,45 @@ def run(chk):
     # (every case went through the oracle); nothing else to do here.
 
 
+def replay_under_hash_seeds(c):
+    """a keyword_search case may depend on the string hash seed of the interpreter: evaluate it in child
+    interpreters under PYTHONHASHSEED 0..7 and collect the oracle failures per seed"""
+    code = ("import sys, json; sys.path[:0] = [%r, %r]; from harness import c15; "
+            "line, impl, fails = c15.evaluate(json.loads(sys.stdin.read())); print(json.dumps([impl, [d for d, _ in fails]]))" % (REPO, VERIF))
+    out = {}
+    for hs in range(8):
+        env = dict(os.environ, PYTHONHASHSEED=str(hs))
+        p = subprocess.run([sys.executable, "-c", code], input=json.dumps(c).encode(), env=env, stdout=subprocess.PIPE,
+                           stderr=subprocess.PIPE, timeout=300)
+        try:
+            out[hs] = json.loads(p.stdout.decode().strip().split("\n")[-1])
+        except ValueError:
+            out[hs] = ["error: " + p.stderr.decode()[-300:], []]
+    return out
+
+
 def replay(data):
+    c = data["case"]
+    if c.get("op") == "ks":
+        print("replaying under PYTHONHASHSEED 0..7", json.dumps(c, ensure_ascii=False)[:2000])
+        res = replay_under_hash_seeds(c)
+        bad = False
+        for hs in sorted(res):
+            impl, fails = res[hs]
+            print("hash seed %d impl: %s" % (hs, impl[:600]))
+            for d in fails:
+                print("  ORACLE:", d[:1200])
+                bad = True
+        try:
+            print("model:", run_driver("C15", [evaluate(c)[0]])[0][:600])
+        except Exception as e:
+            print("model: driver failed: %s" % e)
+        print("property violated on this input" if bad else "property holds on this input")
+        return 1 if bad else 0
+    return replay_one(data)
+
+
+def replay_one(data):
     c = data["case"]
     print("replaying", json.dumps(c, ensure_ascii=False)[:2000])
     line, impl, fails = evaluate(c)
